@@ -1,18 +1,21 @@
 pub mod c01;
 pub mod c02;
+pub mod c03;
 pub mod c04;
 pub mod c05;
 pub mod c06;
 pub mod c07;
 pub mod c08;
+pub mod c09;
 pub mod c10;
 pub mod c11;
+pub mod c16;
 pub mod scase;
 
 use crate::engine::Property;
 
 pub fn all() -> Vec<Property> {
-    vec![c01::property(), c02::property(), c04::property(), c05::property(), c06::property(), c07::property(), c08::property(), c10::property(), c11::property()]
+    vec![c01::property(), c02::property(), c03::property(), c04::property(), c05::property(), c06::property(), c07::property(), c08::property(), c09::property(), c10::property(), c11::property(), c16::property_c16(), c16::property_c17()]
 }
 
 /// Non-tape engines (libFuzzer campaigns, subprocess sweeps) attached to a property.
